@@ -789,11 +789,11 @@ def check_iet_get(ctx):
         i0, loop = its[0]
         key, val = A.src(loop.target.elts[0]), A.src(loop.target.elts[1])
         mode = None
-        for t, pol in _lit_before(p, i0):
-            if A.src(t) == "self.include":
+        inc_names = {"self.include"} | {k for k, v in K.func_aliases(get).items() if A.src(v) == "self.include"}
+        # the default is tested before the loop (two loops) or inside it (one loop); a path that never tests it holds for both
+        for t, pol in p.literals():
+            if A.src(t) in inc_names:
                 mode = pol
-        if not ctx.require(mode is not None, "C15-d", loop, "item loop not under a test of self.include"):
-            continue
         lits = []
         for e in p.ev[i0:]:
             if e[0] == "cond":
@@ -822,17 +822,26 @@ def check_iet_get(ctx):
                   and c.func.attr in ("update", "setdefault", "pop", "clear", "popitem")]
         dels = [s for s in p.stmts() if isinstance(s, ast.Delete) and p.index(s) > i0]
         n += 1
+
+        def expected(mode):
+            if listed:
+                return "none" if mode else "value"
+            if sub:
+                return "rec" if isd else ("none" if isd is False else "unguarded")
+            if listed is False and sub is False:
+                return "value" if mode else "none"
+            return None
+        if mode is None:
+            if expected(True) != expected(False):
+                ctx.unknown("C15-d", loop, "path [%s] stores or skips an item without testing self.include" % p.describe(4))
+                continue
+            rows.add((True, listed, sub, isd))
+            rows.add((False, listed, sub, isd))
+            mode = True
         row = (mode, listed, sub, isd)
         rows.add(row)
         # expected outcome
-        if listed:
-            want = "none" if mode else "value"
-        elif sub:
-            want = "rec" if isd else ("none" if isd is False else "unguarded")
-        elif listed is False and sub is False:
-            want = "value" if mode else "none"
-        else:
-            want = None
+        want = expected(mode)
         if want is None:
             ctx.unknown("C15-d", loop, "path [%s] decides neither key membership nor subtree membership" % p.describe(4))
             continue
@@ -864,7 +873,7 @@ def check_iet_get(ctx):
                   desc.strip(", "), got, {"none": "nothing", "value": "the value as it is", "rec": "the subtree's selection of the value",
                                           "unguarded": "no recursion into a non-dictionary"}[want]),
                   detail="get [%s] -> %s" % (desc.strip(", "), got), construct="get-row:%s:%s:%s:%s" % row, path=p)
-    ctx.instances_floor("C15-d/get", n, 8, "paths through the item loops of IncludeExcludeTree.get")
+    ctx.instances_floor("C15-d/get", n, 4, "paths through the item loops of IncludeExcludeTree.get")   # completeness is the row table below
     need = {(m, l, s) for m in (True, False) for (l, s) in ((True, None), (False, True), (False, False))}
     have = {(m, bool(l) if l is not None else None, s if not l else None) for m, l, s, d in rows}
     miss = [r for r in need if r not in have]
